@@ -52,9 +52,7 @@ def run(ctx):
     from src import polya_verification as pv
     from src import polya_finder as pf
     quick = ctx.tier == "quick"
-    ctx.regen(); ok, log = ctx.build()
-    if not ok: ctx.broken("build", "make failed: " + log[-1500:])
-    ctx.obligations("C16.v")
+    ctx.prepare("C16.v")
 
     # ---- 1. get_read_blocks: exhaustive short CIGARs + random long ones
     cases = []
